@@ -120,7 +120,7 @@ class Model:
         if op == "pfx":
             return self.nf_of_prefix(self.prefix_by_name(t[1])).mul(self.eval_model(t[2]))
         if op == "pfxraw":
-            return NF({t[1]: Fraction(t[2])}).mul(self.eval_model(t[3]))
+            return NF({t[1]: Fraction(_exp(t[2]))}).mul(self.eval_model(t[3]))
         if op == "mul":
             return self.eval_model(t[1]).mul(self.eval_model(t[2]))
         if op == "div":
@@ -140,7 +140,7 @@ class Model:
         if op == "pfx":
             return self.prefix_by_name(t[1]) * self.eval_real(t[2])
         if op == "pfxraw":
-            return self.m.Prefix(t[1], t[2]) * self.eval_real(t[3])
+            return self.m.Prefix(t[1], _exp(t[2])) * self.eval_real(t[3])
         if op == "mul":
             return self.eval_real(t[1]) * self.eval_real(t[2])
         if op == "div":
@@ -150,6 +150,13 @@ class Model:
         if op == "root":
             return self.eval_real(t[1]).root(t[2])
         raise ValueError(f"unknown term {t!r}")
+
+
+def _exp(e):
+    """a prefix exponent in the term language: an int, an integral float, or ["d", "3"] for Decimal"""
+    if isinstance(e, list):
+        return Decimal(e[1])
+    return e
 
 
 def _is_int(e):
